@@ -28,7 +28,15 @@ manifest skeleton vs. IH5Skeleton.for_record(record), extensions = given or prev
 commit, commit with unknown keyword / through a read-only handle, create_patch while pending,
 discard with nothing pending, create_stub onto an existing target / from a missing manifest):
 it was refused, no file changed, the manifest invariant still holds and the committed files
-reopen as IH5MFRecord.
+reopen as IH5MFRecord; (e) handed-over manifest (code-side oracle only, Stub.v has no merge of real
+records and no manifest locations): the stub-made patch is put next to the real containers, its
+manifest is passed as manifest_file= from another name / directory while the name-inferred place
+holds nothing / a stale manifest (left by a removed direct patch) / a copy; the record is merged,
+patched further through that handle and merged again, and the merged record is patched and merged:
+after every merge the manifest next to the merged container has the sha256 + uuid its user block
+names (= the manifest of the merged record), describes paths / kinds / attribute names, keeps the
+extensions, and the container reopens as IH5MFRecord showing the merged record; after every
+further commit clause (c) (replay kind "handover").
 """
 from __future__ import annotations
 
@@ -641,6 +649,311 @@ def canon_case(case) -> Any:
     return out
 
 
+# ---------------------------------------------------------------------------- handed-over manifest, merge, further patches
+#
+# Code-side oracle (no model: Stub.v has no merge of real records / no manifest file locations).
+# The stub-made patch is brought to the real record, its manifest is handed over under another
+# name / location (manifest_file=...), with nothing / a stale manifest / the same manifest at the
+# name-inferred location; the record is merged, patched further and merged again, the merged
+# record is patched too.  After every commit and merge: the statement's manifest clause.
+
+INFERRED = ["none", "stale", "same"]
+PLACES = ["dir", "name", "suffix"]
+
+
+def _exts_after(prev, given):
+    return given if given is not None else prev
+
+
+def _merged_problems(merged: Path, src_ext, want_shape, want_root_kind, want_view, want_exts, who: str) -> List[Tuple[str, str]]:
+    """The manifest clause for a merged container: the manifest lying next to it is the one its
+    user block names (uuid + sha256) = the manifest of the merged record, it describes the paths /
+    kinds / attribute names of the record and keeps the extensions; the container reopens as
+    IH5MFRecord and shows the merged record."""
+    from metador_core.ih5.manifest import IH5MFRecord
+    bad: List[Tuple[str, str]] = []
+    ub = _ub_of(merged)
+    mfp = Path(str(merged) + "mf.json")
+    if ub["ext"] is None:
+        return [("merge-manifest-link", f"{who}: merged container has no manifest extension in its user block")]
+    if src_ext is not None and ub["ext"]["id"] != src_ext["id"]:
+        bad.append(("merge-manifest-link", f"{who}: merged container names manifest {ub['ext']['id']}, the merged record's newest container named {src_ext['id']}"))
+    if not mfp.is_file():
+        bad.append(("merge-manifest-link", f"{who}: no manifest next to the merged container"))
+        return bad
+    b = mfp.read_bytes()
+    try:
+        mf = json.loads(b)
+        rows, root = _skel_rows(mf["skeleton"])
+    except Exception as e:  # noqa: BLE001
+        return bad + [("merge-manifest-link", f"{who}: manifest next to the merged container unreadable: {type(e).__name__}")]
+    if "sha256:" + hashlib.sha256(b).hexdigest() != ub["ext"]["hash"]:
+        bad.append(("merge-manifest-link", f"{who}: sha256 of the manifest next to the merged container differs from manifest_hashsum in its user block "
+                                           f"(user block names {ub['ext']['id']}, file holds {mf.get('manifest_uuid')})"))
+    if str(mf["manifest_uuid"]) != ub["ext"]["id"]:
+        bad.append(("merge-manifest-link", f"{who}: uuid of the manifest next to the merged container differs from manifest_uuid in its user block"))
+    if _shape(rows) != want_shape or root[0] != want_root_kind:
+        bad.append(("merge-manifest-skeleton", f"{who}: manifest next to the merged container does not describe the paths / kinds / attribute names of the merged record"))
+    if mf["manifest_exts"] != want_exts:
+        bad.append(("merge-exts", f"{who}: manifest next to the merged container has extensions {mf['manifest_exts']!r}, expected {want_exts!r}"))
+    try:
+        r = IH5MFRecord([Path(merged)], "r")
+        try:
+            rrows, rroot = _skel_rows(_skel_of(r))
+            if _shape(rrows) != want_shape:
+                bad.append(("merge-result", f"{who}: skeleton of the reopened merged record differs from the merged record's"))
+            if ih5lib.dump_view(r) != want_view:
+                bad.append(("merge-result", f"{who}: reopened merged record differs from the record that was merged"))
+            if r.manifest.manifest_exts != want_exts:
+                bad.append(("merge-exts", f"{who}: reopened merged record loads extensions {r.manifest.manifest_exts!r}, expected {want_exts!r}"))
+        finally:
+            r.close()
+    except vlib.CaseTimeout:
+        raise
+    except Exception as e:  # noqa: BLE001
+        bad.append(("merge-reopen", f"{who}: merged record does not reopen as IH5MFRecord: {type(e).__name__}: {e}"[:260]))
+    return bad
+
+
+def _merge_and_check(rec, target: Path, want_exts, who: str) -> List[Tuple[str, str]]:
+    rows, root = _skel_rows(_skel_of(rec))
+    view = ih5lib.dump_view(rec)
+    src_ext = _ub_of(rec.ih5_files[-1])["ext"]
+    target.parent.mkdir(parents=True, exist_ok=True)
+    try:
+        merged = rec.merge_files(target)
+    except vlib.CaseTimeout:
+        raise
+    except Exception as e:  # noqa: BLE001
+        return [("merge-failed", f"{who}: merge_files raised {type(e).__name__}: {e}"[:260])]
+    return _merged_problems(Path(merged), src_ext, _shape(rows), root[0], view, want_exts, who)
+
+
+def _commit_problems(rec, want_exts, who: str) -> List[Tuple[str, str]]:
+    ob = _observe_commit(rec)
+    bad = _commit_link_problems(ob, who)
+    if ob["mf"] is not None and ob["mf"]["exts"] != want_exts:
+        bad.append(("exts", f"{who}: manifest extensions {ob['mf']['exts']!r}, expected {want_exts!r}"))
+    bad += [("manifest-link", f"{who}: {t}") for t in _invariant(rec)]
+    return bad
+
+
+def exec_handover(case) -> Dict[str, Any]:
+    """-> {"st", "bad": [(class, text)], "did": {...}}"""
+    from metador_core.ih5.manifest import IH5MFRecord
+    out: Dict[str, Any] = {"st": "ok", "bad": [], "did": {}}
+    bad: List[Tuple[str, str]] = out["bad"]
+    opened: List[Any] = []
+    with vlib.workdir("c10h") as d:
+        try:
+            with ih5lib.hard_time_limit(CASE_TIMEOUT):
+                (d / "real").mkdir()
+                rec = IH5MFRecord(d / "real" / "rec", "w")
+                opened.append(rec)
+                exts: Any = {}
+                for i, (ops, given) in enumerate(case["rounds"]):
+                    if i > 0:
+                        rec.create_patch()
+                    _apply(rec, ops)
+                    _commit(rec, given)
+                    exts = _exts_after(exts, given)
+                files = [Path(p) for p in rec.ih5_files]
+                rec.close()
+                newest_mf = Path(str(files[-1]) + "mf.json")
+                # ---- a direct patch whose container is taken away again: its manifest stays behind
+                if case["inferred"] == "stale":
+                    r2 = IH5MFRecord(d / "real" / "rec", "r+")
+                    opened.append(r2)
+                    _apply(r2, case["stale"][0])
+                    _commit(r2, case["stale"][1])
+                    gone = Path(r2.ih5_files[-1])
+                    r2.close()
+                    gone.unlink()
+                # ---- the update through a stub
+                (d / "stub").mkdir()
+                stub = IH5MFRecord.create_stub(d / "stub" / "rec", newest_mf)
+                opened.append(stub)
+                stub.create_patch()
+                _apply(stub, case["upd"][0])
+                _commit(stub, case["upd"][1])
+                exts = _exts_after(exts, case["upd"][1])
+                sp = Path(stub.ih5_files[-1])
+                stub.close()
+                patch = d / "real" / sp.name
+                shutil.copyfile(sp, patch)
+                inferred = Path(str(patch) + "mf.json")
+                handed = {"dir": d / "handed" / "update-manifest.json", "name": d / "real" / "handed-over.json",
+                          "suffix": d / "real" / (sp.name + ".manifest")}[case["place"]]
+                handed.parent.mkdir(exist_ok=True)
+                shutil.copyfile(str(sp) + "mf.json", handed)
+                if case["inferred"] == "same":
+                    shutil.copyfile(handed, inferred)
+                elif case["inferred"] == "none" and inferred.exists():
+                    inferred.unlink()
+                out["did"]["stale_present"] = inferred.is_file() and case["inferred"] == "stale"
+                chain = files + [patch]
+                # ---- open with the handed-over manifest, merge
+                try:
+                    g = IH5MFRecord(list(reversed(chain)) if case.get("rev") else list(chain), "r", manifest_file=handed)
+                    opened.append(g)
+                except vlib.CaseTimeout:
+                    raise
+                except Exception as e:  # noqa: BLE001
+                    bad.append(("handover-open", f"real files + stub-made patch + handed-over manifest do not open: {type(e).__name__}: {e}"[:260]))
+                    return out
+                if g.manifest.manifest_exts != exts:
+                    bad.append(("exts-via-stub", f"handed-over manifest loads extensions {g.manifest.manifest_exts!r}, expected {exts!r}"))
+                bad += _merge_and_check(g, d / "out1" / "merged", exts, "merge after opening with manifest_file=")
+                out["did"]["merge1"] = True
+                g.close()
+                # ---- further patches through a handle opened with the handed-over manifest, merge again
+                if case["more"]:
+                    h = IH5MFRecord(list(chain), "r+", manifest_file=handed)
+                    opened.append(h)
+                    exts2 = exts
+                    for k, (ops, given) in enumerate(case["more"]):
+                        if k > 0:
+                            h.create_patch()
+                        _apply(h, ops)
+                        _commit(h, given)
+                        exts2 = _exts_after(exts2, given)
+                        bad += _commit_problems(h, exts2, f"further commit {k} (handle opened with manifest_file=)")
+                    bad += _merge_and_check(h, d / "out2" / "merged", exts2, "merge after further commits")
+                    h.close()
+                    out["did"]["more"] = len(case["more"])
+                # ---- patches on the merged record
+                if case["after"] and (d / "out1" / "merged.ih5").is_file() and not any(c in ("merge-reopen", "merge-failed") for c, _ in bad):
+                    a = IH5MFRecord(d / "out1" / "merged", "r+")
+                    opened.append(a)
+                    exts3 = exts
+                    for k, (ops, given) in enumerate(case["after"]):
+                        if k > 0:
+                            a.create_patch()
+                        _apply(a, ops)
+                        _commit(a, given)
+                        exts3 = _exts_after(exts3, given)
+                        bad += _commit_problems(a, exts3, f"commit {k} on the merged record")
+                    bad += _merge_and_check(a, d / "out3" / "merged", exts3, "merge of the patched merged record")
+                    a.close()
+                    out["did"]["after"] = len(case["after"])
+        except vlib.CaseTimeout:
+            out["st"] = "timeout"
+        except Exception as e:  # noqa: BLE001
+            import traceback
+            out["st"] = "error"
+            out["err"] = f"{type(e).__name__}: {e}"[:300]
+            out["tb"] = traceback.format_exc()[-1500:]
+        finally:
+            for r in opened:
+                try:
+                    r.close(commit=False)
+                except Exception:  # noqa: BLE001
+                    pass
+    return out
+
+
+def w_exec_h(case):
+    try:
+        return exec_handover(case)
+    except Exception as e:  # noqa: BLE001
+        return {"st": "harness", "err": f"{type(e).__name__}: {e}"[:300], "bad": [], "did": {}}
+
+
+def gen_handover(rng, quick: bool) -> Dict[str, Any]:
+    base = gen_case(rng, quick)
+    keys = sorted({k for ops, _ in base["rounds"] for o in ops if len(o) > 1 and isinstance(o[1], list) for k in o[1]}) or ["a", "b"]
+
+    def small(n):
+        ops = []
+        for _ in range(n):
+            p = [rng.choice(keys) for _ in range(rng.choice([1, 1, 2]))]
+            t = rng.choice(["set", "set", "grp", "del", "aset"])
+            ops.append({"set": ["set", p, rng.choice(VALUES)], "grp": ["grp", p], "del": ["del", p],
+                        "aset": ["aset", p, rng.choice(KEY_POOL), rng.choice(VALUES)]}[t])
+        return ops
+
+    def ext():
+        return rng.choice(EXTS) if rng.random() < 0.3 else None
+    return {"kind": "handover", "rounds": base["rounds"], "upd": base["upd"],
+            "inferred": rng.choice(INFERRED), "place": rng.choice(PLACES), "rev": rng.random() < 0.3,
+            "stale": [small(rng.randint(0, 3)), rng.choice(EXTS) if rng.random() < 0.5 else None],
+            "more": [[small(rng.randint(0, 3)), ext()] for _ in range(rng.choice([0, 1, 1, 2]))],
+            "after": [[small(rng.randint(0, 3)), ext()] for _ in range(rng.choice([0, 0, 1, 2]))]}
+
+
+def fixed_handover() -> List[Dict[str, Any]]:
+    C = []
+    rounds = [[[["set", ["foo", "bar"], "i:1"], ["set", ["data"], "v:00"]], {"owner": "me"}],
+              [[["aset", ["data"], "k1", "i:1"], ["set", ["grp", "sub"], "i:7"]], None]]
+    upd = [[["del", ["foo", "bar"]], ["set", ["foo", "new"], "i:7"], ["aset", ["data"], "k2", "i:1"], ["aset", [], "root", "i:1"]], None]
+    for inf in INFERRED:
+        for place in PLACES[:2]:
+            C.append({"kind": "handover", "rounds": rounds, "upd": upd, "inferred": inf, "place": place, "rev": False,
+                      "stale": [list(upd[0][:2]) + [["set", ["other"], "i:0"]], {"stale": True}],
+                      "more": [[[["set", ["later"], "i:1"]], None]], "after": [[[["del", ["grp"]]], {"x": 1}]]})
+    return C
+
+
+def handover_classes(case) -> List[str]:
+    return sorted({c for c, _ in exec_handover(case)["bad"]})
+
+
+def w_shrink_h(arg):
+    case, cls = arg
+
+    def fails(c):
+        try:
+            return cls in handover_classes(c)
+        except Exception:  # noqa: BLE001
+            return False
+    if not fails(case):
+        return None
+    cur = json.loads(json.dumps(case))
+
+    def attempt(cand):
+        nonlocal cur
+        if cand != cur and fails(cand):
+            cur = cand
+            return True
+        return False
+    for fld, val in (("after", []), ("more", []), ("rev", False), ("place", "dir"), ("inferred", "none"), ("stale", [[], None])):
+        attempt({**cur, fld: val})
+    changed = True
+    while changed and len(cur["rounds"]) > 1:
+        changed = False
+        for k in range(len(cur["rounds"]) - 1, -1, -1):
+            if attempt({**cur, "rounds": cur["rounds"][:k] + cur["rounds"][k + 1:]}):
+                changed = True
+                break
+    items = _flat(cur)
+    if items:
+        def sub_case(sub):
+            u = _unflat(cur, sub)
+            return {**cur, "rounds": u["rounds"], "upd": u["upd"]}
+        if len(items) >= 2:
+            small = vlib.ddmin(items, lambda sub: fails(sub_case(sub)), budget=40)
+            cur = sub_case(small)
+        if len(_flat(cur)) == 1:
+            attempt(sub_case([]))
+    for k in range(len(cur["rounds"])):
+        if cur["rounds"][k][1] is not None:
+            cand = json.loads(json.dumps(cur))
+            cand["rounds"][k][1] = None
+            attempt(cand)
+    if cur["upd"][1] is not None:
+        attempt({**cur, "upd": [cur["upd"][0], None]})
+    texts = [t for c, t in exec_handover(cur)["bad"] if c == cls]
+    if not texts:
+        return None
+    return {"case": cur, "class": cls, "what": texts[0]}
+
+
+def canon_handover(case) -> Any:
+    c = canon_case({"rounds": case["rounds"], "upd": case["upd"]})
+    return {**c, "inferred": case["inferred"], "place": case["place"], "rev": bool(case.get("rev")),
+            "stale": len(case["stale"][0]), "more": [len(o) for o, _ in case["more"]], "after": [len(o) for o, _ in case["after"]]}
+
+
 # ---------------------------------------------------------------------------- generation
 
 def gen_case(rng, quick: bool) -> Dict[str, Any]:
@@ -927,6 +1240,47 @@ def run(ctx: vlib.Ctx):
     if neg_seen == 0:
         ctx.notes.append("negative control: no copy-through-stub update differed from the direct one (the oracle may be insensitive)")
 
+    # ---- handed-over manifest (manifest_file=...), merge, further patches: the manifest clause on the code
+    hcases = fixed_handover() + [gen_handover(rng, ctx.quick) for _ in range(ctx.budget(40, 400))]
+    hres = vlib.pmap(w_exec_h, hcases, chunksize=1)
+    hhits: Dict[str, List[int]] = {}
+    hstats = {"cases": len(hcases), "timeouts": 0, "errors": 0, "merges_after_handover": 0, "stale_manifest_at_inferred_place": 0,
+              "further_commits": 0, "commits_on_merged": 0, "inferred": _hist(c["inferred"] for c in hcases)}
+    for hi, (hc, ho) in enumerate(zip(hcases, hres)):
+        if ho["st"] == "timeout":
+            hstats["timeouts"] += 1
+            continue
+        if ho["st"] != "ok":
+            hstats["errors"] += 1
+            if not ho["bad"]:
+                disagreements.append({"kind": "impl-" + ho["st"] + " (handover)", "hcase": hi, "what": ho.get("err"), "tb": ho.get("tb")})
+        hstats["merges_after_handover"] += bool(ho["did"].get("merge1"))
+        hstats["stale_manifest_at_inferred_place"] += bool(ho["did"].get("stale_present"))
+        hstats["further_commits"] += ho["did"].get("more", 0)
+        hstats["commits_on_merged"] += ho["did"].get("after", 0)
+        for cls in sorted({c for c, _ in ho["bad"]}):
+            hhits.setdefault(cls, []).append(hi)
+    cov["handover"] = {**hstats, "hits_by_class": {c: len(v) for c, v in hhits.items()}}
+    hpicked = []
+    for cls in sorted(hhits):
+        hsmall = sorted(hhits[cls], key=lambda hi: len(_flat(hcases[hi])) + 3 * len(hcases[hi]["more"]) + 3 * len(hcases[hi]["after"]))[:2]
+        hpicked += [(hcases[hi], cls) for hi in hsmall]
+    hshrunk = vlib.pmap(w_shrink_h, hpicked, chunksize=1) if hpicked else []
+    hseen = set()
+    hper: Dict[str, int] = {}
+    for (hc, cls), r in zip(hpicked, hshrunk):
+        if r is None:
+            ctx.notes.append(f"handover oracle hit [{cls}] did not reproduce when re-run alone; not reported")
+            continue
+        sig = {"class": cls, "handover": canon_handover(r["case"])}
+        key = vlib.signature(sig)
+        if key in hseen or hper.get(cls, 0) >= 1:
+            continue
+        hseen.add(key)
+        hper[cls] = hper.get(cls, 0) + 1
+        ctx.violation(f"[{cls}] {r['what']}  (handover case: {json.dumps(r['case'])[:400]})",
+                      {"kind": "handover", "class": cls, "case": r["case"], "canonical": sig}, sig_obj=sig)
+
     # ---- oracle hits: a few per class, shrink in parallel, report distinct minimal ones
     by_cls: Dict[str, List[int]] = {}
     for ci, cls, _t in hits:
@@ -970,7 +1324,10 @@ def run(ctx: vlib.Ctx):
                    "commit with an unknown keyword / through a read-only handle, create_patch while a container is writable, discard "
                    "with nothing pending, create_stub onto an existing target / from a missing manifest) issued before and after random "
                    "commits and on the stub, the manifest invariant + reopen + unchanged files evaluated after each; non-trivial = distinct case with >= 2 real "
-                   "containers, >= 2 skeleton entries and >= 1 successful update operation")
+                   "containers, >= 2 skeleton entries and >= 1 successful update operation; in addition (cov['handover'], code-side oracle) "
+                   "histories + stub-made update where the patch's manifest is handed over via manifest_file= from another name / directory "
+                   "with nothing / a stale manifest / a copy at the name-inferred place, then merge, 0-2 further commits + merge, 0-2 commits "
+                   "on the merged record + merge")
     cov["input_distribution"] = {**stats, "cases": len(cases), "update_op_kinds": kinds, "refused_op_kinds": refused_kinds,
                                  "rounds_hist": _hist(len(c["rounds"]) for c in cases)}
     cov["coq_crosscheck"] = xc
@@ -1013,6 +1370,14 @@ def _hist(it):
 
 def replay(rep) -> int:
     vlib._pool_init()
+    if rep.get("kind") == "handover":
+        ho = exec_handover(rep["case"])
+        same = [t for c, t in ho["bad"] if c == rep.get("class")]
+        if ho["st"] != "ok" and not same:
+            print("could not run the case:", ho.get("err") or ho["st"])
+            return 1
+        print("still failing:" if same else "no longer failing", same[:2] if same else "")
+        return 1 if same else 0
     if rep.get("kind") != "case":
         print("replay names a proof obligation or correspondence; re-run the check itself")
         return 1
